@@ -1255,6 +1255,17 @@ def arrays_package(namespace="Arr"):
     steps.append(("d0", ("arr", P("float64"), ("dyn",)), True))
     steps.append(("px", ("arr", ("named", "Px", []), ("rank", 2, None)), True))
     steps.append(("h", ("named", "Holder", []), True))
+    # records with enum / flags fields as array elements: in NumPy the element holds the integer value (default base: a variable-length integer on the
+    # wire, no raw-memory path; an 8-bit base: raw memory)
+    pkg.defs.append({"kind": "enum", "name": "Kind", "flags": False, "base": None, "auto": True, "values": [("ka", 0), ("kb", 1), ("kc", 2)]})
+    pkg.defs.append({"kind": "enum", "name": "Bits", "flags": True, "base": None, "auto": True, "values": [("ba", 1), ("bb", 2), ("bc", 4)]})
+    pkg.defs.append({"kind": "enum", "name": "Small", "flags": False, "base": "uint8", "auto": False, "values": [("sa", 0), ("sb", 7), ("sc", 255)]})
+    pkg.defs.append({"kind": "record", "name": "Tagged", "tparams": [], "fields": [("kind", ("named", "Kind", [])), ("bits", ("named", "Bits", [])), ("n", P("int16"))]})
+    pkg.defs.append({"kind": "record", "name": "TaggedSmall", "tparams": [], "fields": [("s", ("named", "Small", [])), ("t", ("named", "Small", []))]})
+    steps.append(("tg", ("arr", ("named", "Tagged", []), ("rank", 2, None)), False))
+    steps.append(("tgs", ("arr", ("named", "Tagged", []), ("dyn",)), True))
+    steps.append(("tgf", ("arr", ("named", "TaggedSmall", []), ("fixed", [2, 2], None)), True))
+    steps.append(("ks", ("arr", ("named", "Kind", []), ("rank", 1, None)), True))
     pkg.defs.append({"kind": "protocol", "name": "PArrays", "steps": steps})
     return pkg
 
@@ -1364,11 +1375,21 @@ def directed_package(namespace="Dir"):
         ("images", ("named", "Img", [P("float64")]), True),
         ("pairs", ("named", "Pair", [("named", "Img", [P("uint8")]), ("vec", ("named", "Pix", []), None)]), True)]})
     pkg.defs.extend(pair_alias_defs())
+    # records that are array elements (in Python: NumPy structured elements, with their own NDJSON path) whose field names are not their
+    # Python identifiers: several words, a Python keyword
+    pkg.defs.append({"kind": "record", "name": "CamelSample", "tparams": [], "fields": [("channelId", P("uint16")), ("phaseOffset", P("float32")), ("lambda", P("int8")), ("isValid", P("bool"))]})
+    pkg.defs.append({"kind": "protocol", "name": "PCamelArrays", "steps": [("grid", ("arr", ("named", "CamelSample", []), ("rank", 2, None)), True),
+                                                                           ("pair", ("arr", ("named", "CamelSample", []), ("fixed", [2], None)), False),
+                                                                           ("any", ("arr", ("named", "CamelSample", []), ("dyn",)), False),
+                                                                           ("plain", ("vec", ("named", "CamelSample", []), None), False)]})
     # streams whose items have a fixed-size encoding (scalars, flat records): the writers have raw-memory paths for batches of them
     pkg.defs.append({"kind": "protocol", "name": "PFixedItems", "steps": [("pixs", ("named", "Pix", []), True), ("mixeds", ("named", "Mixed", []), True), ("floats", P("float32"), True),
                                                                            ("doubles", P("float64"), True), ("bytes", P("uint8"), True), ("n", P("int32"), False)]})
     steps = [(f"v{i}", ("vec", P(e), None), i % 3 != 0) for i, e in enumerate(prims_seq)]
     steps += [(f"w{i}", ("vec", P(e), 3), i % 3 == 0) for i, e in enumerate(prims_seq)]
+    # a fixed length of zero is a length like any other: no count on the wire, and not the same type as the vector without a length
+    steps.append(("z0", ("vec", P("int32"), 0), False))
+    steps.append(("z0s", ("vec", P("string"), 0), True))
     steps.append(("vp", ("vec", ("named", "Pix", []), None), True))
     steps.append(("vm", ("vec", ("named", "Mixed", []), 2), True))
     pkg.defs.append({"kind": "protocol", "name": "PVec", "steps": steps})
